@@ -135,8 +135,10 @@ def check(run):
         'sequential histories against REAL interval boundaries (1 s / 2 s rotations): writes of 0 B - 64 KiB, waits across 1-6 boundaries, idle intervals, stop/start cycles, '
         'a pre-existing file named for the current second; the observed history (operation @ second) is replayed on the model and the final directory (file name -> payload ids in order) compared')
     cc = ['%d %d %d %d 0 0' % (rng.choice([1, 1, 2]), rng.choice([1, 2, 4, 8, 16]), rng.choice([2, 3, 4]), rng.choice([0, 40, 2000])) for _ in range(10 if quick else 200)]
+    # large lines (32 KiB .. 64 KiB and a little beyond), writers calling on a common beat
+    cc += ['1 %d 2 %d 0 0' % (nw_, ms_) for nw_, ms_ in ([(4, 65536), (12, 70000)] if quick else [(2, 65536), (4, 65536), (8, 40000), (12, 70000), (16, 65536)])]
     run_concurrent(run, 'c13/concurrent', cc,
-        '1-16 concurrent writers crossing 2-4 real boundaries; oracle: every completed write whole, exactly once, in exactly one file app.log.<14 digits>, and no file contains a write completed before the second in its name')
+        '1-16 concurrent writers crossing 2-4 real boundaries, line sizes 0 B - 2 KB continuously and 32-70 KB on a common beat; oracle: every completed write whole, exactly once, in exactly one file app.log.<14 digits>, and no file contains a write completed before the second in its name')
     run_start_at_boundary(run, 'c13/start-at-boundary', ['%d 256' % (3 if quick else 40)])
     return 'see streams'
 
